@@ -48,6 +48,9 @@ REQUIRED_THEOREMS = [     # every theorem of the Props module (all MANIFEST-name
     # solver contract, returned coordinates)
     "TapkeeVerif.LeCompose.laplacian_eigenmaps_end_to_end",
     "TapkeeVerif.LeCompose.diffusion_map_end_to_end",
+    "TapkeeVerif.LeCompose.laplacian_kernel_constant",
+    "TapkeeVerif.LeCompose.le_zero_eigenvalue_simple",
+    "TapkeeVerif.LeCompose.laplacian_eigenmaps_connected_kernel",
 ]
 EXE = "model_c09"
 
